@@ -17,13 +17,13 @@ class Step(VC):
     (tied to the exact threshold formula by C04) derives from that tally; Execute / Close are admitted exactly on the derived status"""
     property_id = "C03"
 
-    def __init__(self, crate, variant):
-        self.crate, self.variant = crate, variant
+    def __init__(self, crate, variant, after=None):
+        self.crate, self.variant, self.after = crate, variant, after
         self.extra_crates = ("cw3",)
-        self.name = f"C03.{'fixed' if crate == FIXED else 'flex'}.{variant}"
+        self.name = f"C03.{'fixed' if crate == FIXED else 'flex'}." + (f"chain.{after}.then." if after else "") + variant
 
     def run(self, I, ctx, ob):
-        f = ms_step(I, ctx, ob, self.crate, self.variant)
+        f = ms_step(I, ctx, ob, self.crate, self.variant, after=self.after)
         v = self.variant
         p0p, p0 = slot_map(f.pre["proposals"])[(f.pid,)]
         if f.outcome != "Ok":
@@ -128,6 +128,11 @@ def vcs(tier):
     out = []
     for c in (FIXED, FLEX):
         out += [Step(c, v) for v in ("Propose", "Vote", "Execute", "Close")] + [Query(c)]
+    # two-call chains on one proposal (thorough): the second call is judged on the state the first really left behind
+    import os
+    if tier == "thorough" and os.environ.get("VERIF_CHAINS"):
+        CHV = ("Vote", "Execute", "Close")
+        for c in (FIXED, FLEX): out += [Step(c, b, after=a) for a in CHV for b in CHV]
     return out + kernel_fact_vcs(tier)
 
 
